@@ -78,6 +78,14 @@ def run(report, tier, seed):
             with numpoly.global_options(retain_names=True, retain_coefficients=False):
                 p = gen.rand_poly(rng, shape, rng.choice([(2, 10), (3, 10), (2, 3, 10), (1, 10, 11)]), nterms=rng.choice([1, 2]),
                                   maxexp=1, dtype=numpy.int64, raw=False)
+        if len(p.names) > 1 and rng.random() < 0.15:
+            # the same polynomial stored with its indeterminates in another order than the index order (names given
+            # explicitly to a constructor): positions are positions in THESE names, under every option setting (D38)
+            perm = list(range(len(p.names)))
+            while perm == sorted(perm):
+                rng.shuffle(perm)
+            with numpoly.global_options(retain_names=True, retain_coefficients=True):
+                p = numpoly.ndpoly.from_attributes(p.exponents[:, perm], p.coefficients, [p.names[j] for j in perm])
         lay = core.poly_layout(p)
         size = int(numpy.prod(shape)) if shape else 1
         o = settings[k % 16] if rng.random() < 0.7 else settings[1 * 4]      # defaults: retain_names on
@@ -94,7 +102,7 @@ def run(report, tier, seed):
                     if kind == "poly" and rng.random() < 0.5:
                         arg = p.indeterminants[j]        # an element of the indeterminate array (carries the other names)
                     else:
-                        arg = f"q{v}" if kind == "name" else j if kind == "index" else numpoly.symbols(f"q{v}")
+                        arg = f"q{v}" if kind == "name" else (j if rng.random() < 0.7 else numpy.int64(j)) if kind == "index" else numpoly.symbols(f"q{v}")
                     res = numpoly.derivative(p, arg)
                     vs = [v]
                 elif kind == "multi":
